@@ -36,6 +36,7 @@ META = {
 
 THEOREMS = [
     "C13_mapping",
+    "C13_tables_known",
     "C13_hierarchy",
     "C13_handled_ok",
     "C13_mapping_layers",
